@@ -232,6 +232,7 @@ func (t *Tx) invalidate(path []string, deep bool, except *Cursor) {
 		ck := pathKey(c.path)
 		if ck == pk || (deep && strings.HasPrefix(ck+"/", pk+"/")) {
 			c.predictable = false
+			c.everInvalidated = true
 		}
 	}
 }
@@ -483,6 +484,9 @@ type Cursor struct {
 	state       int
 	cur         elem
 	predictable bool
+	// everInvalidated: the cursor object has lived through a modification of its
+	// bucket (and may have been repositioned since)
+	everInvalidated bool
 }
 
 // Cursor creates a cursor over the bucket at path.
@@ -511,8 +515,19 @@ func (c *Cursor) OnBucket() bool { return c.state == posAt && c.cur.kind == 1 }
 // Path returns the bucket path of the cursor.
 func (c *Cursor) Path() []string { return c.path }
 
+// EverInvalidated reports whether the cursor object lived through a modification
+// of its bucket (it may have been repositioned since).
+func (c *Cursor) EverInvalidated() bool { return c.everInvalidated }
+
 // StateKey canonically renders the cursor for state hashing.
 func (c *Cursor) StateKey() string {
+	if c.everInvalidated {
+		return c.stateKey() + "!"
+	}
+	return c.stateKey()
+}
+
+func (c *Cursor) stateKey() string {
 	if !c.Predictable() {
 		return pathKey(c.path) + "@?"
 	}
